@@ -1,10 +1,11 @@
 import RegexVerif.Sexp
 import RegexVerif.Model.Facts
 import RegexVerif.Model.SetFacts
+import RegexVerif.Model.LoopFacts
 import RegexVerif.Driver.SpecIO
 
 namespace RegexVerif.Driver
-open RegexVerif Sexp Spec Facts SetFacts
+open RegexVerif Sexp Spec Facts SetFacts LoopFacts
 
 def anchorName : Anchor → String
   | .bol => "bol" | .eol => "eol" | .boundary => "boundary" | .nonboundary => "nonboundary"
@@ -29,6 +30,28 @@ def predSexp : Pred → Sexp
 def optSet : Option (List Pred) → Sexp
   | none => .atom "none"
   | some s => mk "some" (s.map predSexp)
+
+/-! rendering of the loop facts (Model/LoopFacts.lean) -/
+
+def optLoopSexp : Option (Pred × Nat) → Sexp
+  | none => .atom "none"
+  | some (P, lo) => .list [predSexp P, ofNat lo]
+
+def symAltSexp (a : SymAlt) : Sexp :=
+  mk "alt" [mk "lead" [optLoopSexp a.lead],
+    mk "core" [match a.core with
+      | .lit w => mk "lit" (w.map ofNat)
+      | .set P lo hi => mk "set" [predSexp P, ofNat lo, ofNat hi]],
+    mk "trail" [optLoopSexp a.trail]]
+
+def chainSexp : Option SymChain → Sexp
+  | none => mk "chain" [.atom "none"]
+  | some c => mk "chain" (mk "loop" [predSexp c.loop] :: c.landmarks.map fun alts => mk "lm" (alts.map symAltSexp))
+
+def lalSexp : Option SymLal → Sexp
+  | none => mk "lal" [.atom "none"]
+  | some l => mk "lal" [mk "loop" [predSexp l.loop], mk "lit" (l.lit.map predSexp)]
+
 
 /-- the over-approximations of one (sub)pattern, left-to-right: `(first S?) (at (k S?)…) (prefixes (r…)…)
     (cover 0|1)` — `cover` is `checkPrefixes E (prefixes norm …)`, the validator's verdict -/
@@ -62,7 +85,12 @@ def normOf (tbl : List (Nat × Nat)) (r : Nat) : Nat :=
     leading positive lookahead, `… (look (first S?) (at …) (prefixes …) (cover 0|1))` with the same
     four entries for the lookahead's body.  `S? = none | (some pred…)` (a union of leaf tests), the last
     two arguments are the published string list `E` for the `cover` verdicts and the normalisation table
-    of the prefix strings. -/
+    of the prefix strings.
+
+    `(c04 loopfacts <k> <pat> <k2>)` → `(ok (chain none | (loop <pred>) (lm (alt (lead none|(<pred> min)) (core (lit r…) |
+    (set <pred> lo hi)) (trail none|(<pred> min)))…)…) (lal none | (loop <pred>) (lit <pred>…)) (lalprefix none | (loop <pred>) (str r…)) (look none | <the same three entries for the body of `leadLook pat`, whose top concatenation has `k2` children>))`: what
+    `LoopFacts.chainOf k` / `lalOf k` prove about every left-to-right match of the pattern whose top
+    concatenation has `k` children (leg L validates the published `LandmarkChain` / `LiteralAfterLoop` against it) -/
 def handleC04 (args : List Sexp) : String :=
   match args with
   | [.atom "facts", rtl, p] =>
@@ -90,6 +118,19 @@ def handleC04 (args : List Sexp) : String :=
           | none => mk "look" [.atom "none"]
         toString (Sexp.list ([.atom "ok"] ++ setsOf norm p ks maxLen maxCount E ++ [look]))
     | _, _, _, _, _, _, _ => "(bad-op)"
+  | [.atom "loopfacts", k, p, k2] =>
+    match k.nat?, pat? p, k2.nat? with
+    | some k, some p, some k2 =>
+      let three (k : Nat) (q : Pat) : List Sexp :=
+        let pre : Sexp := match lalPrefixOf q with
+          | none => mk "lalprefix" [.atom "none"]
+          | some (P, w) => mk "lalprefix" [mk "loop" [predSexp P], mk "str" (w.map ofNat)]
+        [chainSexp (chainOf k q), lalSexp (lalOf k q), pre]
+      let look : Sexp := match (leadLook p).1 with
+        | some b => mk "look" (three k2 b)
+        | none => mk "look" [.atom "none"]
+      toString (Sexp.list (.atom "ok" :: three k p ++ [look]))
+    | _, _, _ => "(bad-op)"
   | _ => "(bad-op)"
 
 end RegexVerif.Driver
